@@ -1,6 +1,8 @@
 package workqueue
 
 import (
+	"fmt"
+	"os"
 	"sync"
 	"sync/atomic"
 	"testing"
@@ -25,7 +27,12 @@ import (
 // check and finishShardDrain / after a batch / after a dequeue / after an
 // admission) until a generated number of further Submit calls have returned,
 // or a generated time has passed. Handlers can be slow in the same event-driven
-// way (Lat 4: wait until n more Submit calls returned). Holding a goroutine for
+// way (Lat 4: wait until n more Submit calls returned), and producers are paced
+// by generated styles: closed loop (next Submit after the previous item was
+// handled, so the drain keeps reaching its end while the producer is active),
+// "wait until some goroutine is held", sleeps, yields, back to back. All waits
+// are bounded (<= 3 ms) and end early when the event arrives, so the hit rate
+// does not depend on machine load; there is no global timer. Holding a goroutine for
 // a bounded time at a point where it owns no lock is a schedule the Go runtime
 // may produce by itself, so the oracle is unchanged: the plan runner and the
 // history judgement are verifC37Check's (exactly once, Close waits, handler
@@ -54,15 +61,54 @@ type verifC37Sched struct {
 	next []atomic.Bool      // per shard: the drain that just left handed the shard over to a follow-up drain
 	cur  []atomic.Bool      // per shard: the running drain is such a follow-up drain
 
-	wmu     sync.Mutex
-	waiters []verifC37Waiter
-	noMore  bool
+	wmu        sync.Mutex
+	waiters    []verifC37Waiter
+	heldNow    int             // goroutines currently parked in hold
+	preWaiters []chan struct{} // producers waiting for heldNow > 0
+	noMore     bool
 
-	holds, finishHolds, resched, reschedHeld atomic.Int64
+	doneMu sync.Mutex
+	done   map[int]chan struct{} // item id -> closed when its handler call ended
+
+	holds, drainEnds, finishHolds, resched, reschedHeld atomic.Int64
+}
+
+func (s *verifC37Sched) doneCh(id int) chan struct{} {
+	s.doneMu.Lock()
+	defer s.doneMu.Unlock()
+	ch := s.done[id]
+	if ch == nil {
+		ch = make(chan struct{})
+		s.done[id] = ch
+	}
+	return ch
+}
+
+// handled is called at the end of a handler call.
+func (s *verifC37Sched) handled(ids []int) {
+	for _, id := range ids {
+		ch := s.doneCh(id)
+		select {
+		case <-ch: // already closed (an item handled twice is the oracle's business)
+		default:
+			close(ch)
+		}
+	}
+}
+
+// awaitHandled parks a closed-loop producer until item id was handled or us
+// microseconds passed.
+func (s *verifC37Sched) awaitHandled(id int, us int) {
+	tm := time.NewTimer(time.Duration(us) * time.Microsecond)
+	defer tm.Stop()
+	select {
+	case <-s.doneCh(id):
+	case <-tm.C:
+	}
 }
 
 func verifC37NewSched(p *verifC37Plan) *verifC37Sched {
-	s := &verifC37Sched{next: make([]atomic.Bool, p.Shards), cur: make([]atomic.Bool, p.Shards)}
+	s := &verifC37Sched{next: make([]atomic.Bool, p.Shards), cur: make([]atomic.Bool, p.Shards), done: map[int]chan struct{}{}}
 	for k := range s.occ {
 		s.occ[k] = make([]atomic.Uint64, p.Shards)
 	}
@@ -70,21 +116,50 @@ func verifC37NewSched(p *verifC37Plan) *verifC37Sched {
 }
 
 // hold parks the calling goroutine until n more Submit calls have returned,
-// no Submit call will return any more, or us microseconds passed.
-func (s *verifC37Sched) hold(r *verifC37Run, n int, us int) {
+// no Submit call will return any more, or us microseconds passed. It reports
+// whether the goroutine was parked at all.
+func (s *verifC37Sched) hold(r *verifC37Run, n int, us int) bool {
 	s.wmu.Lock()
-	target := r.attempts.Load() + int64(n)
-	if s.noMore || r.attempts.Load() >= target {
+	if s.noMore {
+		s.wmu.Unlock()
+		return false
+	}
+	w := verifC37Waiter{target: r.attempts.Load() + int64(n), ch: make(chan struct{})}
+	s.waiters = append(s.waiters, w)
+	s.heldNow++
+	for _, ch := range s.preWaiters {
+		close(ch)
+	}
+	s.preWaiters = nil
+	s.wmu.Unlock()
+	tm := time.NewTimer(time.Duration(us) * time.Microsecond)
+	select {
+	case <-w.ch:
+	case <-tm.C:
+	}
+	tm.Stop()
+	s.wmu.Lock()
+	s.heldNow--
+	s.wmu.Unlock()
+	return true
+}
+
+// awaitHeld parks a producer until some goroutine is held (observation point
+// or Lat-4 handler), no Submit call will return any more, or us microseconds
+// passed.
+func (s *verifC37Sched) awaitHeld(us int) {
+	s.wmu.Lock()
+	if s.noMore || s.heldNow > 0 {
 		s.wmu.Unlock()
 		return
 	}
-	w := verifC37Waiter{target: target, ch: make(chan struct{})}
-	s.waiters = append(s.waiters, w)
+	ch := make(chan struct{})
+	s.preWaiters = append(s.preWaiters, ch)
 	s.wmu.Unlock()
 	tm := time.NewTimer(time.Duration(us) * time.Microsecond)
 	defer tm.Stop()
 	select {
-	case <-w.ch:
+	case <-ch:
 	case <-tm.C:
 	}
 }
@@ -106,10 +181,23 @@ func (s *verifC37Sched) wake(r *verifC37Run, all bool) {
 		}
 	}
 	s.waiters = keep
+	if s.noMore {
+		for _, ch := range s.preWaiters {
+			close(ch)
+		}
+		s.preWaiters = nil
+	}
 	s.wmu.Unlock()
 }
 
 type verifC37SchedObserver struct{ r *verifC37Run }
+
+func verifC37Mix(x uint64) uint64 { // splitmix64 finaliser
+	x += 0x9E3779B97F4A7C15
+	x = (x ^ (x >> 30)) * 0xBF58476D1CE4E5B9
+	x = (x ^ (x >> 27)) * 0x94D049BB133111EB
+	return x ^ (x >> 31)
+}
 
 func (o verifC37SchedObserver) ObserveShardedMailbox(obs ShardedMailboxObservation) {
 	r := o.r
@@ -143,16 +231,17 @@ func (o verifC37SchedObserver) ObserveShardedMailbox(obs ShardedMailboxObservati
 			drainEnd = true
 		}
 	}
-	h := (n + uint64(kind)*1000003 + uint64(obs.Shard)*7919 + p.Salt) * 0x9E3779B97F4A7C15
+	h := verifC37Mix(n + uint64(kind)<<40 + uint64(obs.Shard)<<48 + p.Salt<<20)
 	held := false
 	if int((h>>33)%100) < p.StallPct[kind] {
-		held = true
-		s.holds.Add(1)
-		s.hold(r, 1+int((h>>12)%uint64(p.StallN)), p.StallUs)
+		if held = s.hold(r, 1+int((h>>12)%uint64(p.StallN)), p.StallUs); held {
+			s.holds.Add(1)
+		}
 	} else if p.ObsEvery > 0 {
 		r.perturb()
 	}
 	if drainEnd {
+		s.drainEnds.Add(1)
 		if held {
 			s.finishHolds.Add(1)
 		}
@@ -182,12 +271,19 @@ func verifC37DrawSchedPlan(rt *rapid.T) *verifC37Plan {
 	p.StallPct[verifC37ObsDepth] = rapid.SampledFrom([]int{0, 0, 10, 30}).Draw(rt, "holdDepthPct")
 	p.StallPct[verifC37ObsAdmission] = rapid.SampledFrom([]int{0, 0, 0, 10}).Draw(rt, "holdAdmissionPct")
 	p.StallN = rapid.IntRange(1, 3).Draw(rt, "holdSubmits")
-	p.StallUs = rapid.IntRange(100, 3000).Draw(rt, "holdUs")
+	p.StallUs = rapid.SampledFrom([]int{300, 1000, 3000}).Draw(rt, "holdUs")
 	np := rapid.IntRange(1, 4).Draw(rt, "producers")
 	slowShare := rapid.IntRange(0, 70).Draw(rt, "slowShare") // % of items with a slow handler
+	// handlers that block until the plan's gate opens stall their shard for a
+	// large part of the run: only in some cases
+	useGate := rapid.IntRange(0, 3).Draw(rt, "useGate") == 0
 	id, total := 0, 0
 	for pi := 0; pi < np; pi++ {
-		n := rapid.IntRange(2, 15).Draw(rt, "nops")
+		n := rapid.IntRange(3, 14).Draw(rt, "nops")
+		// pacing style of this producer: 4 closed loop (next call after the
+		// previous item was handled), 3 waits for a held goroutine, 2 sleeps,
+		// 5 back to back, 0 drawn per call
+		style := rapid.SampledFrom([]int{4, 3, 0, 2, 5}).Draw(rt, "style")
 		ops := make([]verifC37Op, n)
 		for i := range ops {
 			id++
@@ -195,13 +291,17 @@ func verifC37DrawSchedPlan(rt *rapid.T) *verifC37Plan {
 			w := rapid.IntRange(0, 99).Draw(rt, "lat")
 			switch {
 			case w < slowShare:
-				switch rapid.IntRange(0, 5).Draw(rt, "slow") {
-				case 0:
+				slow := rapid.SampledFrom([]int{4, 2, 4, 2, 3}).Draw(rt, "slow")
+				if slow == 3 && !useGate {
+					slow = 4
+				}
+				switch slow {
+				case 3:
 					it.Lat = 3
-				case 1, 2:
+				case 2:
 					it.Lat, it.LatN = 2, rapid.IntRange(20, 500).Draw(rt, "sleepUs")
 				default:
-					it.Lat, it.LatN, it.LatUs = 4, rapid.IntRange(1, 2).Draw(rt, "latSubmits"), rapid.IntRange(100, 2000).Draw(rt, "latUs")
+					it.Lat, it.LatN, it.LatUs = 4, rapid.IntRange(1, 2).Draw(rt, "latSubmits"), rapid.SampledFrom([]int{300, 1000, 3000}).Draw(rt, "latUs")
 				}
 			case w < slowShare+15:
 				it.Lat, it.LatN = 1, rapid.IntRange(1, 5).Draw(rt, "yields")
@@ -209,13 +309,21 @@ func verifC37DrawSchedPlan(rt *rapid.T) *verifC37Plan {
 			it.Hash = uint64(rapid.IntRange(0, 7).Draw(rt, "hash"))
 			it.UseKey = rapid.IntRange(0, 3).Draw(rt, "useKey") == 0
 			op := verifC37Op{Item: it}
-			switch c := rapid.IntRange(0, 9).Draw(rt, "pre"); {
-			case c >= 6:
-				op.Pre, op.PreN = 2, rapid.IntRange(10, 400).Draw(rt, "preUs")
-			case c >= 4:
+			pre := style
+			if pre == 0 || rapid.IntRange(0, 3).Draw(rt, "preDeviates") == 0 {
+				pre = rapid.SampledFrom([]int{4, 3, 2, 1, 5}).Draw(rt, "pre")
+			}
+			switch pre {
+			case 4:
+				op.Pre, op.PreN = 4, rapid.SampledFrom([]int{200, 1000, 3000}).Draw(rt, "preHandledUs")
+			case 3:
+				op.Pre, op.PreN = 3, rapid.SampledFrom([]int{200, 1000, 3000}).Draw(rt, "preHeldUs")
+			case 2:
+				op.Pre, op.PreN = 2, rapid.IntRange(10, 300).Draw(rt, "preUs")
+			case 1:
 				op.Pre, op.PreN = 1, rapid.IntRange(1, 5).Draw(rt, "preYields")
 			}
-			if rapid.IntRange(0, 19).Draw(rt, "ctx") == 0 {
+			if rapid.IntRange(0, 39).Draw(rt, "ctx") == 0 {
 				op.Ctx = 1
 			}
 			ops[i] = op
@@ -224,8 +332,11 @@ func verifC37DrawSchedPlan(rt *rapid.T) *verifC37Plan {
 		p.Producers = append(p.Producers, ops)
 	}
 	p.CloseAfter = rapid.IntRange(total/2, total+total/4+1).Draw(rt, "closeAfter")
+	if rapid.IntRange(0, 2).Draw(rt, "closeLate") > 0 { // mostly: Close near the end of the producers' scripts
+		p.CloseAfter = rapid.IntRange(total-total/8, total+1).Draw(rt, "closeAfterLate")
+	}
 	p.GateAfter = rapid.IntRange(0, total+1).Draw(rt, "gateAfter")
-	p.FallbackUs = rapid.IntRange(3000, 20000).Draw(rt, "fallbackUs")
+	p.FallbackUs = 0 // no global timer: see the fallback goroutine in verifC37Check
 	if rapid.IntRange(0, 1).Draw(rt, "obs") > 0 {
 		p.ObsEvery = rapid.IntRange(1, 6).Draw(rt, "obsEvery")
 		p.ObsSleepUs = rapid.SampledFrom([]int{0, 0, 5, 50}).Draw(rt, "obsSleepUs")
@@ -263,6 +374,22 @@ func verifC37SchedClassify(r *verifC37Run, k *kit.Case, col *kit.Collector, subm
 		}
 	}
 	resched := s.resched.Load()
+	if os.Getenv("VERIF_C37_DEBUG") != "" {
+		adm := 0
+		for _, sub := range submits {
+			if sub.Err == "" {
+				adm++
+			}
+		}
+		pre := [5]int{}
+		for _, ops := range p.Producers {
+			for _, op := range ops {
+				pre[op.Pre]++
+			}
+		}
+		fmt.Fprintf(os.Stderr, "C37DBG w=%d q=%d sh=%d prod=%d sub=%d adm=%d batches=%d pct=%v n=%d us=%d pre=%v closeAfter=%d holds=%d drainEnds=%d finHolds=%d resched=%d reschedHeld=%d during=%d\n",
+			p.Workers, p.Queue, p.Shards, len(p.Producers), len(submits), adm, len(batches), p.StallPct, p.StallN, p.StallUs, pre, p.CloseAfter, s.holds.Load(), s.drainEnds.Load(), s.finishHolds.Load(), resched, s.reschedHeld.Load(), during)
+	}
 	k.SetNonTrivial(resched > 0 && p.Workers >= 2)
 	k.LabelIf(s.holds.Load() > 0, lp+"a goroutine was held at an observation point")
 	k.LabelIf(s.finishHolds.Load() > 0, lp+"drain held between its last emptiness check and finishShardDrain")
